@@ -267,13 +267,14 @@ inductive TNode where
 def tx (s : Str) (safe : Bool := false) : Event := .text s safe
 
 /-- the events an evaluated `${…}` contributes: `None` and `Undefined` nothing,
-    a string one TEXT, a number (bool included) one `Markup` TEXT, an iterable
+    a string one TEXT, a number (bool included) one plain TEXT of its `str()` (genshi fix 26d934c:
+    `MarkupTemplate._number_conv` no longer marks it as `Markup`), an iterable
     one TEXT per item through `_ensure`.  A function object has an address in
     its text: unmodelled. -/
 def renderVal : Val → Except Err (List Event)
   | .atom .none => .ok []
   | .atom (.str s) => .ok [tx s]
-  | .atom a => .ok [tx a.text true]
+  | .atom a => .ok [tx a.text]
   | .list xs => .ok (xs.map fun a => tx a.text)
   | .dict kv => .ok (kv.map fun p => tx p.1)
   | .undef => .ok []
